@@ -285,6 +285,12 @@ class G:
             return r.choice([True, False])
         return self.schema(d, depth - 1)
 
+    def named(self, s):
+        """a schema of a Draft 3 type union, sometimes with a `name` (what the error message calls it)"""
+        if isinstance(s, dict) and self.r.random() < 0.4:
+            s = dict(s, name=self.r.choice(["integer", "string", "Label", "a b"]))
+        return s
+
     def type_value(self, d, depth):
         r = self.r
         if d == "d3":
@@ -294,10 +300,10 @@ class G:
             out = []
             if depth > 0 and r.random() < 0.35:
                 # a name before schemas: the positions of the schema alternatives differ from their rank
-                return [r.choice(pool)] + [self.schema(d, depth - 1) for _ in range(r.randrange(1, 3))] + ([r.choice(pool)] if r.random() < 0.3 else [])
+                return [r.choice(pool)] + [self.named(self.schema(d, depth - 1)) for _ in range(r.randrange(1, 3))] + ([r.choice(pool)] if r.random() < 0.3 else [])
             for _ in range(r.randrange(1, 4)):
                 if depth > 0 and r.random() < 0.3:
-                    out.append(self.schema(d, depth - 1))
+                    out.append(self.named(self.schema(d, depth - 1)))
                 else:
                     t = r.choice(pool)
                     if t not in out:
